@@ -76,11 +76,12 @@ def run_checks(repo, outdir, pids, tier="quick", seed="1"):
 
 
 def apply_mutant(repo, m):
-    p = os.path.join(repo, m["file"])
-    s = open(p).read()
-    if s.count(m["old"]) != 1:
-        raise SystemExit("mutant %s: pattern occurs %d times in %s" % (m["id"], s.count(m["old"]), m["file"]))
-    open(p, "w").write(s.replace(m["old"], m["new"]))
+    for f, old, new in [(m["file"], m["old"], m["new"])] + list(m.get("more", [])):
+        p = os.path.join(repo, f)
+        s = open(p).read()
+        if s.count(old) != 1:
+            raise SystemExit("mutant %s: pattern occurs %d times in %s" % (m["id"], s.count(old), f))
+        open(p, "w").write(s.replace(old, new))
 
 
 def main(argv):
